@@ -33,7 +33,7 @@ namespace bloc
 
 Value& MemberSETExpression::value(Context& ctx) const
 {
-  Value& val = _exp->value(ctx);
+  Value& val = receiver(ctx);
   if (val.isNull())
     throw RuntimeError(EXC_RT_INDEX_RANGE_S, std::to_string(_index).c_str());
   Value& a0 = _args[0]->value(ctx);
